@@ -648,9 +648,9 @@ Definition step (s : st) (o : op) (rs : list N) : res st :=
   | OSetHeur d g k =>
     if Nat.ltb g ng && Nat.ltb k 4 then on_half d rs s (fun _ h => Ok (updq g (fun q => mkQ (q_max q) (q_cq q) (q_cu q) k (q_ents q)) h)) else Ok s
   | OSetGMax d x => if x <=? 1048576 then on_half d rs s (fun _ h => Ok (with_max h x)) else Ok s
-  | OBalance d g => if Nat.ltb g ng then on_half d rs s (fun v h => balance v g h) else Ok s
+  | OBalance d g => if Nat.ltb g (length (h_qs (get_half d s))) then on_half d rs s (fun v h => balance v g h) else Ok s
   | OCycle d g quota =>
-    if Nat.ltb g ng then on_half d rs s (fun v h => do x <- cycle v g quota h; Ok (with_cur (fst x) (h_cur (fst x) + snd x)%Z)) else Ok s
+    if Nat.ltb g (length (h_qs (get_half d s))) then on_half d rs s (fun v h => do x <- cycle v g quota h; Ok (with_cur (fst x) (h_cur (fst x) + snd x)%Z)) else Ok s
   | OTick =>
     do hu <- balance_unchoked (env_of Up s) (with_rs (s_up s) rs);
     let s1 := set_half Up (with_rs hu []) s in
@@ -673,4 +673,40 @@ Fixpoint run (s : st) (ops : list (op * list N)) : res st :=
   match ops with
   | [] => Ok s
   | (o, rs) :: r => do s' <- step s o rs; run s' r
+  end.
+
+(* ---------------------------------------------------------------- the wire clause *)
+(* m_send_choked and the CHOKE/UNCHOKE write of PeerConnection<>::fill_write_buffer:
+     receive_upload_choke(choke):  m_up_choke.set_unchoked(!choke); m_send_choked = true;
+     fill_write_buffer:            if (m_send_choked && can_write_choke) { m_send_choked = false;
+                                                                          write_choke(m_up_choke.choked()); } *)
+Record wst := mkW { w_rec : bool;      (* m_up_choke.unchoked() *)
+                    w_pend : bool;     (* m_send_choked *)
+                    w_told : bool }.   (* what the peer was last told: true = UNCHOKE *)
+Inductive wev := WSlot (choke : bool) | WWrite.
+Definition winit : wst := mkW false false false.
+(* new state and the message written, if any (true = UNCHOKE) *)
+Definition wstep (s : wst) (e : wev) : wst * option bool :=
+  match e with
+  | WSlot choke => (mkW (negb choke) true (w_told s), None)
+  | WWrite => if w_pend s then (mkW (w_rec s) false (w_rec s), Some (w_rec s)) else (s, None)
+  end.
+Fixpoint wrun (s : wst) (evs : list wev) (msgs : list bool) : wst * list bool :=
+  match evs with
+  | [] => (s, msgs)
+  | e :: r => let '(s', m) := wstep s e in wrun s' r (match m with Some b => msgs ++ [b] | None => msgs end)
+  end.
+(* one observation per harness step: record, pending flag, messages received during the step *)
+Definition wobs := (bool * bool * list bool)%type.
+Fixpoint wobserve (s : wst) (steps : list (list wev)) : list wobs :=
+  match steps with
+  | [] => []
+  | evs :: r => let '(s', ms) := wrun s evs [] in (w_rec s', w_pend s', ms) :: wobserve s' r
+  end.
+(* acceptor run on the implementation's trace: at quiescence (nothing pending) the last
+   CHOKE/UNCHOKE the peer received equals the client's record *)
+Fixpoint wire_accept (told : bool) (l : list wobs) : bool :=
+  match l with
+  | [] => true
+  | (r, p, ms) :: rest => let told' := last ms told in (p || Bool.eqb told' r) && wire_accept told' rest
   end.
